@@ -29,6 +29,11 @@ func graphFromBits(n int, bits uint64) *GraphCase {
 func randomGraph(r *Rng) *GraphCase {
 	n := r.Range(1, 12)
 	p := []float64{0.05, 0.1, 0.2, 0.4}[r.Intn(4)]
+	if r.P(0.15) {
+		// large sparse digraphs (node numbers beyond any machine-word bitset)
+		n = r.Range(60, 150)
+		p = []float64{0.5, 1, 1.5, 3}[r.Intn(4)] / float64(n)
+	}
 	g := &GraphCase{N: n, Edges: make([][]int, n)}
 	for u := 0; u < n; u++ {
 		for v := 0; v < n; v++ {
@@ -45,6 +50,11 @@ func randomGraph(r *Rng) *GraphCase {
 
 // genGraphCase: exhaustive n=3 (512 graphs), then exhaustive n=4 (65536), then seeded random n<=12.
 func genGraphCase(idx int64, r *Rng) *GraphCase {
+	// every other case is a seeded random digraph; the rest enumerate
+	if idx%2 == 1 {
+		return randomGraph(r)
+	}
+	idx /= 2
 	switch {
 	case idx < 512:
 		return graphFromBits(3, uint64(idx))
